@@ -65,9 +65,16 @@ pub struct RunOut {
     pub setup_ops: u64,
     /// storage ops issued when the workload (the fault-armed phase) ended
     pub workload_ops: u64,
+    /// a few concrete cases of this run, for the evidence samples
+    pub sample_notes: Vec<String>,
 }
 
 impl RunOut {
+    pub fn note(&mut self, s: String) {
+        if self.sample_notes.len() < 4 {
+            self.sample_notes.push(s);
+        }
+    }
     pub fn probe(&mut self, name: &str) {
         *self.probes.entry(name.to_string()).or_insert(0) += 1;
     }
